@@ -20,7 +20,7 @@ import re
 import struct
 from fractions import Fraction
 
-from vf import asl, engine
+from vf import asl, engine, nonieee
 from vf import datamodel as dm
 from vf.datamodel import HALF, SINGLE, DOUBLE, Invalid, Unsettled, Sim, TARGETS
 from vf.gen import composite
@@ -625,6 +625,8 @@ def fit(sim, stmt, pc, maxlen):
 
 @composite
 def strategy_(d, tier):
+    if d.int(0, 99) < 10:
+        return nonieee.generate(d)          # IBM/360, TMS320C3x/C4x and Qxx/LQxx formats (vf/nonieee.py)
     tgt = d.weighted(TGT_WEIGHTS)
     syms = []
     sim = Sim(tgt, syms)
@@ -1076,6 +1078,8 @@ def _log_inconclusive(case, src):
 
 
 def execute(case):
+    if case.get("kind") == "nonieee":
+        return nonieee.execute(case)
     tgt = case["tgt"]
     gran = TARGETS[tgt]["gran"]
     classes = ["tgt:" + tgt]
@@ -1162,6 +1166,8 @@ def execute(case):
 
 
 def show(case):
+    if case.get("kind") == "nonieee":
+        return nonieee.show(case)[:1400]
     return "\n".join(analyse(case, False).lines)[:1400]
 
 
@@ -1175,7 +1181,7 @@ def _slotcase(tgt, stmts_per_slot, pre=()):
 
 
 def fixed_cases(tier):
-    out = []
+    out = list(nonieee.fixed_cases())
     I = lambda v, f="d": ["i", v, f]
     F = lambda x: ["f", dm.fmt_float(x)]
     # integer limits of every field width on every statement kind, one statement per slot
